@@ -98,6 +98,14 @@ bool is_private_or_reserved_ipv6(const std::string& host) {
     if (normalized == "::" || normalized == "::1") {
         return true;
     }
+    if (normalized.rfind("::ffff:", 0) == 0) {
+        // IPv4-mapped IPv6: classify the embedded IPv4 address; forms that are not dotted-quad are withheld
+        std::array<std::uint8_t, 4> mapped{};
+        if (parse_ipv4(normalized.substr(7), mapped)) {
+            return is_private_or_reserved_ipv4(mapped);
+        }
+        return true;
+    }
     if (normalized.rfind("fc", 0) == 0 || normalized.rfind("fd", 0) == 0) {
         return true;  // Unique local addresses
     }
